@@ -243,7 +243,7 @@ package nutsdb
 //@   requires applicable(db) && nodesOK(nil) && treesOK(db)
 //@   ensures[C20] nodesOK(nil)
 //@   requires db != nil && db.BPTreeKeyEntryPosMap != nil && db.ActiveCommittedTxIdsIdx != nil && db.BPTreeIdx != nil && db.ActiveBPTreeIdx != nil
-//@   requires db.bucketMetas != nil
+//@   requires db.bucketMetas != nil && len(db.BPTreeRootIdxes) == 0
 //@   ensures fsMut >= old(fsMut)
 //@   modifies everything
 //@   safety[C20] panics
@@ -813,6 +813,7 @@ package nutsdb
 //@   ensures[C20] nodesOK(nil)
 //@   ensures[C20] forall k int :: 0 <= k && k < len(unconfirmedRecords) ==> unconfirmedRecords[k].H.dataPos < 9223372036854775808 && allocated(unconfirmedRecords[k])
 //@   ensures[C20] old(treesOK(db)) ==> treesOK(db)
+//@   ensures db.BPTreeRootIdxes == old(db.BPTreeRootIdxes)
 //@   modifies everything
 //@   safety[C20] panics
 //@   loops 2
@@ -824,6 +825,8 @@ package nutsdb
 //@   loop 2: invariant[C20] forall k int :: 0 <= k && k < len(unconfirmedRecords) ==> unconfirmedRecords[k].H.dataPos < 9223372036854775808
 //@   loop 1: invariant[C20] old(treesOK(db)) ==> treesOK(db)
 //@   loop 2: invariant[C20] old(treesOK(db)) ==> treesOK(db)
+//@   loop 1: invariant db.BPTreeRootIdxes == old(db.BPTreeRootIdxes)
+//@   loop 2: invariant db.BPTreeRootIdxes == old(db.BPTreeRootIdxes)
 //@   loop 1: invariant -1 <= rangeindex && db == old(db) && db.BPTreeKeyEntryPosMap != nil && committedTxIds != nil && db.opt == old(db.opt) &&
 //@        db.ActiveCommittedTxIdsIdx != nil && db.BPTreeIdx == old(db.BPTreeIdx) && db.ActiveBPTreeIdx == old(db.ActiveBPTreeIdx) && db.SetIdx == old(db.SetIdx) && db.ListIdx == old(db.ListIdx) && db.SortedSetIdx == old(db.SortedSetIdx)
 //@   loop 1: invariant forall k int :: 0 <= k && k < len(unconfirmedRecords) ==> unconfirmedRecords[k] != nil && unconfirmedRecords[k].H != nil && unconfirmedRecords[k].H.meta != nil
@@ -909,6 +912,7 @@ package nutsdb
 //@   requires applicable(db) && nodesOK(nil) && treesOK(db)
 //@   ensures[C20] nodesOK(nil)
 //@   requires db != nil && db.BPTreeKeyEntryPosMap != nil && db.ActiveCommittedTxIdsIdx != nil && db.BPTreeIdx != nil && (db.opt.EntryIdxMode == HintBPTSparseIdxMode ==> len(dataFileIds) > 0 && db.ActiveBPTreeIdx != nil)
+//@   requires len(db.BPTreeRootIdxes) == 0
 //@   modifies everything
 //@   safety[C20] panics
 //@   loops 1
@@ -916,6 +920,7 @@ package nutsdb
 //@   loop 1: invariant applicable(db)
 //@   loop 1: invariant[C20] nodesOK(nil)
 //@   loop 1: invariant[C20] treesOK(db) && db.BPTreeIdx != nil && db.ActiveBPTreeIdx == old(db.ActiveBPTreeIdx)
+//@   loop 1: invariant[C20] len(db.BPTreeRootIdxes) == 0
 //@   loop 1: invariant[C20] forall k int :: 0 <= k && k < len(unconfirmedRecords) ==> allocated(unconfirmedRecords[k])
 //@   loop 1: invariant[C20] forall k int :: 0 <= k && k < len(unconfirmedRecords) ==> unconfirmedRecords[k].H.dataPos < 9223372036854775808
 //@   loop 1: invariant forall k int :: 0 <= k && k < len(unconfirmedRecords) ==> unconfirmedRecords[k] != nil && unconfirmedRecords[k].H != nil && unconfirmedRecords[k].H.meta != nil
